@@ -49,8 +49,8 @@ def run(ctx: Ctx) -> None:
     items = [it for it in idx["result"] if not it["skip_numeric"] and not it["dynamic"] and not it["nchw"] and not (ctx.quick and it["key"].startswith("examples"))]
     alli = [it["i"] for it in items]
     rng.shuffle(alli)
-    sel = sorted(alli[: (170 if ctx.quick else 10**9)])
-    transforms = ["vmap", "jit", "grad"] if ctx.quick else ["vmap", "jit", "remat", "grad", "jvp"]
+    sel = sorted(alli[: (110 if ctx.quick else 10**9)])
+    transforms = ["vmap", "vmap_last", "jit", "grad"] if ctx.quick else ["vmap", "vmap1", "vmap_last", "jit", "jit_warm", "remat", "grad", "jvp"]
     n = 14
     tasks = [{"fn": "harness.checks.c10:_case_job", "args": {"cases": c}, "timeout": 1800} for c in [cases[i::4] for i in range(4)] if c]
     tasks += [{"fn": "harness.transformjobs:corpus_transform_job", "args": {"indices": c, "transforms": transforms}, "timeout": 360} for c in [sel[i:i + 3] for i in range(0, len(sel), 3)]]
